@@ -45,6 +45,7 @@ From CG Require Import Model.Driver.
 From CG Require Model.DotOfRegex.
 From CG Require Import Model.EmitData.
 From CG Require Import Spec.InvocationsSub.
+From CG Require Import Model.Compiler.
 (* add new Require lines above this line *)
 Require Import ExtrOcamlBasic ExtrOcamlString.
 Extraction Language OCaml.
@@ -163,5 +164,7 @@ Separate Extraction
   Driver.compile
   EmitData.data_of_dfa
   InvocationsSub.spec_run_sw
+  Compiler.compile_bash
+  Compiler.mkoracles
   (* add new roots above this line *)
   Prelude.pow2.
